@@ -43,17 +43,83 @@ def showRes : Res → String
 def showSecs (l : List LocSection) : String :=
   joinList (l.map fun s => (match s.id with | some i => encStr i | none => "~") ++ ">" ++ encStr s.extra)
 
-/-- `excl` = the code as it is (the ignoring section itself is not consulted),
-`incl` = the documented cut (selected by the harness only if the code behaves so) -/
+/-- `incl` = the code as it is (the ignoring section is the last one consulted),
+`excl` = the loop before fix 5b060e5 (selected by the harness only if the live code behaves so) -/
 def cutVariant (s : String) : Option Bool :=
   if s == "excl" then some false else if s == "incl" then some true else none
 
 def locSecs (incl : Bool) (nn : Option (List (Str × Str))) (ps : List PSec) (loc : Str) : List LocSection :=
-  if incl then cutAfterIgnoring (sortedSections nn ps loc) else locationSections nn ps loc
+  if incl then locationSections nn ps loc else locationSectionsExcl nn ps loc
+
+/-! ### store round trip -/
+
+def showOptStr : Option Str → String
+  | some v => "S " ++ encStr v
+  | none => "E"
+
+def showEntry (e : Entry) : String :=
+  (match e.sec with | some i => encStr i | none => "~") ++ ">" ++ encStr e.key ++ ">" ++ encStr e.raw ++ ">" ++ encStr e.comment
+
+def showLoad : Load → String
+  | .outside => "O"
+  | .error => "E"
+  | .opts l => joinList (l.map showEntry)
+
+/-- `k=v,k=v` -/
+def decOpts (s : String) : Option (List (Str × Str)) := (splitList s).mapM decOpt
+
+/-- what `Stack.get(k)` finds in a loaded store: through `NameMatcher(sec)` for a named
+section; for the no-name section the stack walks ALL sections in file order -/
+def findRaw (sec : Option Str) (k : Str) (l : List Entry) : Option Str :=
+  (l.find? fun e => (sec.isNone || e.sec == sec) && e.key == k).map (·.raw)
+
+def showGet : Option Str → String
+  | some raw => "S " ++ encStr (unquote raw)
+  | none => "N"
+
+def showGets (sec : Option Str) (keys : List Str) (l : List Entry) : String :=
+  joinList (keys.map fun k => showGet (findRaw sec k l))
+
+/-- one generation: write the section, load it again.  `SE` = ConfigObjError while
+quoting, `O` = outside the fragment -/
+def saveLoad (sec : Option Str) (opts : List (Str × Str × Str)) : String ⊕ Load :=
+  if !(opts.all fun o => plainKey o.1) || !(sec.all plainSec) then .inl "O" else
+  match writeSection sec opts with
+  | none => .inl "SE"
+  | some content => .inr (loadContent content)
+
+/-- set every option on an empty store, save, load, get every key; then set `name := v2`
+on the LOADED store, save, load, get every key again -/
+def roundTrip (fix : Bool) (sec : Option Str) (name v2 : Str) (opts : List (Str × Str)) : String :=
+  let keys := opts.map (·.1)
+  match quoteAll fix opts with
+  | none => "SE;-"
+  | some stored =>
+    match saveLoad sec stored with
+    | .inl e => e ++ ";-"
+    | .inr .outside => "O;-"
+    | .inr .error => "LE;-"
+    | .inr (.opts l) =>
+      let g1 := showGets sec keys l
+      if !(l.all fun e => e.sec == sec) then g1 ++ ";O" else
+      match storeQuote fix v2 with
+      | none => g1 ++ ";SE"
+      | some q =>
+        let cur := l.map fun e => (e.key, e.raw, e.comment)
+        let cur2 := if cur.any (·.1 == name) then cur.map (fun o => if o.1 == name then (o.1, q, o.2.2) else o)
+                    else cur ++ [(name, q, [])]
+        match saveLoad sec cur2 with
+        | .inl e => g1 ++ ";" ++ e
+        | .inr .outside => g1 ++ ";O"
+        | .inr .error => g1 ++ ";LE"
+        | .inr (.opts l2) => g1 ++ ";" ++ showGets sec keys l2
 
 /-- `lm variant loc name secs` / `sp loc name secs`: Stack.get through LocationMatcher / StartingPathMatcher;
 `ms variant loc secs` / `ss loc secs`: the sections they yield (id>extra_path);
-`it loc names`: `_iter_for_location_by_parts`; `uq v`: unquote; `bn v`: basename; `jn a b`: join -/
+`it loc names`: `_iter_for_location_by_parts`; `uq v`: unquote; `bn v`: basename; `jn a b`: join;
+`cq 0|1 v`: `_quote` with list_values off/on; `cq s|sfix v`: `IniFileStore.quote` (as is / with the blank fix); `ld content`: load a file; `sl content`: its lines;
+`pv x lines`: one value (+ following lines); `wt`: the whitespace / line-break tables (all code points);
+`rt s|sfix sec name v2 opts`: the whole round trip, two generations -/
 def handle : List String → String
   | ["lm", v, loc, name, secs] =>
     match cutVariant v, decStr loc, decStr name, decSections secs with
@@ -99,6 +165,38 @@ def handle : List String → String
     match decStr v with
     | some v => encStr (urlBasename v)
     | none => "bad-op"
+  | ["cq", lv, v] =>
+    match decStr v with
+    | some v =>
+      if lv == "1" then showOptStr (cquote true v) else if lv == "0" then showOptStr (cquote false v)
+      else if lv == "s" then showOptStr (storeQuote false v) else if lv == "sfix" then showOptStr (storeQuote true v)
+      else "bad-op"
+    | none => "bad-op"
+  | ["ld", c] =>
+    match decStr c with
+    | some c => showLoad (loadContent c)
+    | none => "bad-op"
+  | ["sl", c] =>
+    match decStr c with
+    | some c => joinList ((splitLines c).map encStr)
+    | none => "bad-op"
+  | ["pv", x, ls] =>
+    match decStr x, (splitList ls).mapM decStr with
+    | some x, some ls =>
+      match parseOptValue x ls with
+      | some (raw, used, tail) => encStr raw ++ ">" ++ toString used ++ ">" ++ encStr (tail.dropWhile isSpace)
+      | none => "E"
+    | _, _ => "bad-op"
+  | ["wt"] =>
+    let cps := (List.range 0x110000).filter fun n => n < 0xd800 || 0xdfff < n
+    let sp := cps.filter fun n => isSpace (Char.ofNat n)
+    let lb := cps.filter fun n => isLineBreak (Char.ofNat n)
+    joinList (sp.map toString) ++ ";" ++ joinList (lb.map toString)
+  | ["rt", q, sec, name, v2, opts] =>
+    match (if q == "s" then some false else if q == "sfix" then some true else none),
+      (if sec == "~" then some none else (decStr sec).map some), decStr name, decStr v2, decOpts opts with
+    | some fix, some sec, some name, some v2, some opts => roundTrip fix sec name v2 opts
+    | _, _, _, _, _ => "bad-op"
   | ["jn", a, b] =>
     match decStr a, decStr b with
     | some a, some b => encStr (joinPath a b)
